@@ -1,16 +1,24 @@
 package events
 
 import (
+	"bufio"
 	"bytes"
 	"context"
+	"encoding/binary"
 	"errors"
 	"fmt"
+	"io"
+	"math"
+	"math/bits"
+	"slices"
 	"sort"
 	"strconv"
 	"strings"
 	"sync"
 	"sync/atomic"
 	"time"
+	"unicode"
+	"unicode/utf8"
 
 	"berty.tech/go-orbit-db/internal/vstub"
 )
@@ -178,3 +186,137 @@ func VerifEngineSelfTest() {
 }
 
 type selfKey struct{}
+
+func init() {
+	verifHarnesses["VerifEngineSelfTest2"] = VerifEngineSelfTest2
+}
+
+type byLen []string
+
+func (b byLen) Len() int           { return len(b) }
+func (b byLen) Less(i, j int) bool { return len(b[i]) < len(b[j]) }
+func (b byLen) Swap(i, j int)      { b[i], b[j] = b[j], b[i] }
+
+// VerifEngineSelfTest2: more library surface (generic helpers, io, binary,
+// unicode, strconv, math) - same contract as VerifEngineSelfTest.
+func VerifEngineSelfTest2() {
+	obs := func(format string, args ...interface{}) { vstub.Observe(fmt.Sprintf(format, args...)) }
+	x := vstub.NdChoice("x", 2)
+
+	// sort.Sort / Stable with a user type, slices / maps generics, min / max
+	bl := byLen{"ccc", "a", "bb"}
+	sort.Sort(bl)
+	obs("sort.Sort %s", strings.Join(bl, ","))
+	is := []int{5, 2 + x, 9}
+	slices.Sort(is)
+	obs("slices %v %v %d %d %d", is, slices.Contains(is, 9), slices.Index(is, 5), min(3, x), max(3, x))
+	keys := make([]string, 0)
+	mm := map[string]int{"k1": 1, "k2": 2}
+	for k := range mm {
+		keys = append(keys, k)
+	}
+	sort.Strings(keys)
+	obs("mapkeys %s", strings.Join(keys, ","))
+
+	// strings misc
+	obs("strings2 %v %s %s %s %d", strings.EqualFold("AbC", "aBc"), strings.Replace("aaa", "a", "b", 2), strings.Repeat("xy", 2), strings.TrimLeft("xxabc", "x"), strings.LastIndex("abcabc", "b"))
+	obs("strings3 %s %v %s", strings.Map(func(r rune) rune {
+		if r == 'a' {
+			return 'A'
+		}
+		return r
+	}, "banana"), strings.ContainsRune("abc", 'b'), strings.TrimFunc("  hi  ", unicode.IsSpace))
+	obs("utf8 %d %d %v", utf8.RuneCountInString("héllo"), len("héllo"), utf8.ValidString("ok"))
+	obs("unicode %v %v %c", unicode.IsUpper('A'), unicode.IsDigit('x'), unicode.ToLower('Q'))
+
+	// strconv
+	pb, _ := strconv.ParseBool("true")
+	pi, _ := strconv.ParseInt("-42", 10, 64)
+	pu, _ := strconv.ParseUint("ff", 16, 64)
+	obs("strconv %v %d %d %s %s %s", pb, pi, pu, strconv.Quote("a\"b"), strconv.FormatUint(255, 2), strconv.FormatBool(false))
+
+	// io / bufio / bytes
+	data, err := io.ReadAll(bytes.NewReader([]byte("hello world")))
+	obs("readall %s %v", string(data), err)
+	var w bytes.Buffer
+	n, _ := io.Copy(&w, strings.NewReader("copy me"))
+	obs("copy %d %s", n, w.String())
+	sc := bufio.NewScanner(strings.NewReader("l1\nl2\n"))
+	lines := 0
+	for sc.Scan() {
+		lines++
+	}
+	obs("scanner %d", lines)
+	br := bufio.NewReader(strings.NewReader("ab\ncd"))
+	line, _ := br.ReadString('\n')
+	obs("bufio %q", line)
+
+	// encoding/binary
+	bb := make([]byte, 8)
+	binary.BigEndian.PutUint32(bb, 0xdeadbeef)
+	binary.LittleEndian.PutUint16(bb[4:], 0x1234)
+	vn := binary.PutUvarint(bb[6:], 300)
+	uv, un := binary.Uvarint(bb[6:])
+	obs("binary %x %d %d %d %x", bb[:6], vn, uv, un, binary.BigEndian.Uint32(bb))
+
+	// math, durations
+	obs("math %d %v %d", math.MaxInt32, math.Max(1.5, 2.5), bits.Len(uint(255)))
+	obs("duration %s %d", (1500 * time.Millisecond).String(), int((2 * time.Second).Seconds()))
+
+	// errors.Join, custom Is
+	e1, e2 := errors.New("one"), errors.New("two")
+	j := errors.Join(e1, e2)
+	obs("join %v %v", errors.Is(j, e1), errors.Is(j, e2))
+
+	// RWMutex, Cond, select with default, buffered channel len/cap
+	var rw sync.RWMutex
+	rw.RLock()
+	rw.RUnlock()
+	rw.Lock()
+	rw.Unlock()
+	c := make(chan int, 2)
+	c <- 1
+	sel := "none"
+	select {
+	case c <- 2:
+		sel = "sent"
+	default:
+		sel = "default"
+	}
+	select {
+	case c <- 3:
+		sel += "+sent"
+	default:
+		sel += "+default"
+	}
+	obs("chan %s %d %d", sel, len(c), cap(c))
+	cond := sync.NewCond(&sync.Mutex{})
+	ready := false
+	go func() {
+		cond.L.Lock()
+		ready = true
+		cond.L.Unlock()
+		cond.Broadcast()
+	}()
+	cond.L.Lock()
+	for !ready {
+		cond.Wait()
+	}
+	cond.L.Unlock()
+	obs("cond %v", ready)
+
+	// type switches, method values, variadics, struct copy, arrays
+	var any interface{} = 3 + x
+	switch v := any.(type) {
+	case int:
+		obs("typeswitch int %d", v)
+	default:
+		obs("typeswitch other")
+	}
+	arr := [3]int{1, 2, 3}
+	arr2 := arr
+	arr2[0] = 9
+	f := strings.ToUpper
+	obs("misc %v %v %s", arr, arr2, f("up"))
+	vstub.Cover("self-tested")
+}
